@@ -6,7 +6,10 @@ from pyvc.effects import check_keycover, result
 RANK = ("cfg_t2", "ranking")
 # ---- T2 stage cache (process global _T2_CACHE)
 R.fclause("C05", "t2-stage-key", "custom", "clematis/engine/stages/t2/core.py:t2_semantic", fn=check_keycover,
-          key_var="ckey", cache_expr="cache", injective_wrappers=["_quality_digest"],
+          key_var="ckey", cache_expr="cache", injective_wrappers=["_quality_digest"], ctx_var="ctx",
+          exempt_ctx={"turn_artifacts": "only written: a stash of the `text` of the first hits for reflection; its consumer "
+                                        "(_run_reflection_if_enabled) first derives the same texts from the returned T2 result itself "
+                                        "(_safe_extract_snippets reads text/snippet/content of `retrieved`), so on a hit nothing observable is lost"},
           # trusted representations: index_version() is bumped on every content change of the memory index
           represented_by={"index": "index_ver"},
           cfg_vars=["cfg_t2", "ranking", "cfg_root", "qcfg", "partitions_cfg", "_rfcfg", "_t3cfg"],
@@ -26,8 +29,8 @@ R.fclause("C05", "t2-stage-key", "custom", "clematis/engine/stages/t2/core.py:t2
                       (("_t3cfg", "reflection"), "as above"), (("_rfcfg", "topk_snippets"), "as above")])
 
 # ---- T1 stage cache (process global _T1_CACHE), key built inside the per-graph closure
-R.fclause(["C05", "C17"], "t1-stage-key", "custom", "clematis/engine/stages/t1.py:t1_propagate.<locals>._t1_one_graph", fn=check_keycover,
-          key_var="ckey", cache_expr="cache", cfg_vars=["cfg_t1"],
+R.fclause(["C05", "C17", "C12"], "t1-stage-key", "custom", "clematis/engine/stages/t1.py:t1_propagate.<locals>._t1_one_graph", fn=check_keycover,
+          key_var="ckey", cache_expr="cache", cfg_vars=["cfg_t1"], ctx_var="ctx", exempt_ctx={},
           inputs=[("gid", "graph id"), ("edge_mult", "relation multipliers"),
                   ("radius_cap", "radius cap"), ("effective_iter_cap_layers", "layer cap"), ("effective_queue_budget", "pop budget"),
                   ("node_budget", "node budget"), ("seeds", "seed set"),
